@@ -37,12 +37,15 @@ func (u *unsupported) Error() string {
 //	struct named struct type (parameters only, flattened through the table)
 //	untyped an untyped numeric constant (carries its value)
 type Kind struct {
-	Base  string
-	Named *Named  // the named type, when there is one (method lookup, estr tables)
-	Elem  *Kind   // slice, set: the element kind
-	Rec   *Record // record: the tuple layout
-	Fn    *FnType // func: parameter and result kinds (function-typed parameters, oracles)
-	Len   int     // bytes: the array length
+	Base    string
+	Named   *Named  // the named type, when there is one (method lookup, estr tables)
+	Elem    *Kind   // slice, set: the element kind
+	Rec     *Record // record: the tuple layout
+	Fn      *FnType // func: parameter and result kinds (function-typed parameters, oracles)
+	Len     int     // bytes: the array length
+	Elems   []Kind  // tuple: the results of a function with several plain results
+	Native  bool    // set: a native Go map (parameters of this kind are refused: the caller could see insertions)
+	BoolMap bool    // set: a native map[K]bool (m[k] reads membership); false: mapset or map[K]struct{}
 }
 
 // Second tier (loops over slices):
@@ -145,6 +148,12 @@ func (k Kind) coqType() string {
 		return "(list N)"
 	case "unit":
 		return "unit"
+	case "tuple":
+		var parts []string
+		for _, k := range k.Elems {
+			parts = append(parts, k.coqType())
+		}
+		return "(" + strings.Join(parts, " * ") + ")"
 	case "tparam":
 		return k.Named.Name
 	case "record":
